@@ -116,15 +116,19 @@ package keylock
 // table mutex is released
 //@ func TKeyLocker.Locks
 //@   requires d != nil && !held(d.locker) && nodup(keys)
+//@   ensures #everykeylocked lockcalls() == old(lockcalls()) + len(keys)
 //@   opt keeps-lock
 //@   modifies mapsof(d.lockMap), wrapLocker.readCount, wrapLocker.writeCount, region($alloc), region($held)
 //@   loop 1
+//@     invariant lockcalls() == old(lockcalls()) + idx$1 && len(ws) == len(keys)
 //@     invariant !held(d.locker)
 //@ func TKeyLocker.RLocks
 //@   requires d != nil && !held(d.locker) && nodup(keys)
+//@   ensures #everykeylocked lockcalls() == old(lockcalls()) + len(keys)
 //@   opt keeps-lock
 //@   modifies mapsof(d.lockMap), wrapLocker.readCount, wrapLocker.writeCount, region($alloc), region($held)
 //@   loop 1
+//@     invariant lockcalls() == old(lockcalls()) + idx$1 && len(ws) == len(keys)
 //@     invariant !held(d.locker)
 //
 // Unlocks / RUnlocks: inside ONE critical section every listed key loses exactly one registration (the entry is freed
@@ -134,9 +138,11 @@ package keylock
 //@   atlock #mine forall a int :: { keys[a] } 0 <= a && a < len(keys) ==> has(d.lockMap, keys[a]) && d.lockMap[keys[a]].writeCount >= 1
 //@   atunlock #all forall a int :: { keys[a] } 0 <= a && a < len(keys) ==> wcnt(d, keys[a]) == old(wcnt(d, keys[a])) - 1 && rcnt(d, keys[a]) == old(rcnt(d, keys[a]))
 //@   atunlock #others forall k T :: { has(d.lockMap, k) } (forall a int :: { keys[a] } 0 <= a && a < len(keys) ==> keys[a] != k) ==> has(d.lockMap, k) == old(has(d.lockMap, k)) && d.lockMap[k] == old(d.lockMap[k]) && wcnt(d, k) == old(wcnt(d, k)) && rcnt(d, k) == old(rcnt(d, k))
+//@   ensures #everykeyreleased unlockcalls() == old(unlockcalls()) + len(keys) + 1 && lockcalls() == old(lockcalls()) + 1
 //@   opt keeps-lock
 //@   modifies mapsof(d.lockMap), wrapLocker.readCount, wrapLocker.writeCount
 //@   loop 1
+//@     invariant unlockcalls() == cs(unlockcalls()) + idx$1 && lockcalls() == old(lockcalls()) + 1
 //@     invariant wheld(d.locker) && d.lockMap != nil && 0 <= idx$1 && idx$1 <= len(keys)
 //@     invariant #entries forall k T :: { has(d.lockMap, k) } has(d.lockMap, k) ==> d.lockMap[k] != nil && allocated(d.lockMap[k]) && d.lockMap[k].readCount >= 0 && d.lockMap[k].writeCount >= 0 && d.lockMap[k].readCount + d.lockMap[k].writeCount > 0
 //@     invariant #distinct forall k1 T, k2 T :: { has(d.lockMap, k1), has(d.lockMap, k2) } has(d.lockMap, k1) && has(d.lockMap, k2) && k1 != k2 ==> d.lockMap[k1] != d.lockMap[k2]
@@ -148,9 +154,11 @@ package keylock
 //@   atlock #mine forall a int :: { keys[a] } 0 <= a && a < len(keys) ==> has(d.lockMap, keys[a]) && d.lockMap[keys[a]].readCount >= 1
 //@   atunlock #all forall a int :: { keys[a] } 0 <= a && a < len(keys) ==> rcnt(d, keys[a]) == old(rcnt(d, keys[a])) - 1 && wcnt(d, keys[a]) == old(wcnt(d, keys[a]))
 //@   atunlock #others forall k T :: { has(d.lockMap, k) } (forall a int :: { keys[a] } 0 <= a && a < len(keys) ==> keys[a] != k) ==> has(d.lockMap, k) == old(has(d.lockMap, k)) && d.lockMap[k] == old(d.lockMap[k]) && wcnt(d, k) == old(wcnt(d, k)) && rcnt(d, k) == old(rcnt(d, k))
+//@   ensures #everykeyreleased unlockcalls() == old(unlockcalls()) + len(keys) + 1 && lockcalls() == old(lockcalls()) + 1
 //@   opt keeps-lock
 //@   modifies mapsof(d.lockMap), wrapLocker.readCount, wrapLocker.writeCount
 //@   loop 1
+//@     invariant unlockcalls() == cs(unlockcalls()) + idx$1 && lockcalls() == old(lockcalls()) + 1
 //@     invariant wheld(d.locker) && d.lockMap != nil && 0 <= idx$1 && idx$1 <= len(keys)
 //@     invariant #entries forall k T :: { has(d.lockMap, k) } has(d.lockMap, k) ==> d.lockMap[k] != nil && allocated(d.lockMap[k]) && d.lockMap[k].readCount >= 0 && d.lockMap[k].writeCount >= 0 && d.lockMap[k].readCount + d.lockMap[k].writeCount > 0
 //@     invariant #distinct forall k1 T, k2 T :: { has(d.lockMap, k1), has(d.lockMap, k2) } has(d.lockMap, k1) && has(d.lockMap, k2) && k1 != k2 ==> d.lockMap[k1] != d.lockMap[k2]
